@@ -68,7 +68,9 @@ theorem saveString_strOK {d d1 : Doc} {s : List Byte} {n : Nat} {rs : List Nat} 
       · exact ⟨_, List.mem_map_of_mem hx, by rw [hfid x]; exact e.symm⟩
       · obtain ⟨y, hy, hyid⟩ := hs.present r m
         exact ⟨_, List.mem_map_of_mem hy, by rw [hfid y]; exact hyid⟩
-  · generalize d.pl.alloc (s.length + d.strOverhead) = q at h
+  · split at h
+    · simp only [Prod.mk.injEq] at h; exact absurd h.1 (by simp)
+    generalize d.pl.alloc (s.length + d.strOverhead) = q at h
     obtain ⟨ok, pl⟩ := q
     simp only at h
     split at h
